@@ -14,6 +14,7 @@ RULE = ("cases = dataset (D2-D4, D6-D11, string / int names in shuffled insertio
         "scheme, starters, seed)")
 ASSUMPTIONS = ["reference model vf/ref.py (true scores, not the reported ones)", "dyadic penalties"]
 SUMMARY_KEYS = ["runs", "starts_compared", "scrambled_starts"]
+THOROUGH_SCALE = 4
 CRASH_IS_VIOLATION = False
 STARTERS = [["Borda"], ["Copeland"], ["KwikSort"], ["PickAPerm"], ["Borda", "Copeland", "KwikSort"], ["Pulp"],
             ["BioConsert"], [], ["BioCo!"]]
